@@ -338,6 +338,11 @@ def install(E):
         E.intercept_prefixes.append((pfx, noop))
     doc("log/slog.*, prometheus.*, hdrhistogram.*, fmt.Sprint*", "no effect on program state")
 
+    def ctx_background(E, name, args, ins):
+        return Iface(((TRUE, "$opaque", Opaque("context.Background")),))
+    I["context.Background"] = ctx_background
+    I["context.TODO"] = ctx_background
+
     def opaque_invoke(E, payload, method, args, ins):
         return None
     I["$invoke:$opaque.*"] = opaque_invoke
